@@ -33,16 +33,16 @@ def same(S, label, a, b):
 def sym_parameters(S, P, prefix=""):
     has = {k: S.flag(prefix + "has_" + k) for k in ("result", "result_ttl", "delay_until", "defer_by", "next_execution_time", "ttl")}
     return P.Parameters(
-        execution_timeout=S.timedelta(prefix + "timeout", SEC, HUNDRED_Y),
-        result=P.ResultProperties(id_="res-1_x", ttl=S.timedelta(prefix + "result_ttl", SEC, HUNDRED_Y) if has["result_ttl"] else None)
+        execution_timeout=S.timedelta(prefix + "timeout", 0, HUNDRED_Y),
+        result=P.ResultProperties(id_="res-1_x", ttl=S.timedelta(prefix + "result_ttl", 0, HUNDRED_Y) if has["result_ttl"] else None)
         if has["result"] else None,
         retries=P.RetriesProperties(max_amount=S.int(prefix + "max_amount", 0, None), already_tried=S.int(prefix + "already_tried", 0, None)),
         delay=P.DelayProperties(
             delay_until=S.datetime(prefix + "delay_until", Y2000, Y2100) if has["delay_until"] else None,
-            defer_by=S.timedelta(prefix + "defer_by", SEC, HUNDRED_Y) if has["defer_by"] else None,
+            defer_by=S.timedelta(prefix + "defer_by", 0, HUNDRED_Y) if has["defer_by"] else None,
             next_execution_time=S.datetime(prefix + "next_execution_time", Y2000, Y2100) if has["next_execution_time"] else None),
         timestamp=S.datetime(prefix + "timestamp", Y2000, Y2100),
-        ttl=S.timedelta(prefix + "ttl", SEC, HUNDRED_Y) if has["ttl"] else None,
+        ttl=S.timedelta(prefix + "ttl", 0, HUNDRED_Y) if has["ttl"] else None,
     )
 
 
@@ -60,19 +60,19 @@ def h07_codec(S):
         elif which == 1:
             x = P.RetriesProperties(max_amount=S.int("max_amount", 0, None), already_tried=S.int("already_tried", 0, None))
         elif which == 2:
-            x = P.ResultProperties(id_="abc_DEF-123", ttl=S.timedelta("ttl", SEC, HUNDRED_Y) if S.flag("has_ttl") else None)
+            x = P.ResultProperties(id_="abc_DEF-123", ttl=S.timedelta("ttl", 0, HUNDRED_Y) if S.flag("has_ttl") else None)
         elif which == 3:
             x = P.DelayProperties(delay_until=S.datetime("delay_until", Y2000, Y2100) if S.flag("has_delay_until") else None,
-                                  defer_by=S.timedelta("defer_by", SEC, HUNDRED_Y) if S.flag("has_defer_by") else None,
+                                  defer_by=S.timedelta("defer_by", 0, HUNDRED_Y) if S.flag("has_defer_by") else None,
                                   next_execution_time=S.datetime("next", Y2000, Y2100) if S.flag("has_next") else None)
         elif which == 4:
             x = B.ArgsBucket(data='{"a":[1,2,{"b":"c"}]}', timestamp=S.datetime("timestamp", Y2000, Y2100),
-                             ttl=S.timedelta("ttl", SEC, HUNDRED_Y) if S.flag("has_ttl") else None)
+                             ttl=S.timedelta("ttl", 0, HUNDRED_Y) if S.flag("has_ttl") else None)
         else:
             x = B.ResultBucket(data='"ok"', started_when=S.int("started", 0, None), finished_when=S.int("finished", 0, None),
                                success=S.bool("success"), exception="ValueError" if S.flag("has_exc") else None,
                                timestamp=S.datetime("timestamp", Y2000, Y2100),
-                               ttl=S.timedelta("ttl", SEC, HUNDRED_Y) if S.flag("has_ttl") else None)
+                               ttl=S.timedelta("ttl", 0, HUNDRED_Y) if S.flag("has_ttl") else None)
         text = x.encode()
         S.note("encoded", text[:300])
         y = type(x).decode(text)
@@ -274,7 +274,7 @@ def _e2e(backend):
 
 HARNESSES = [
     Harness(name="H07-codec", scenario=h07_codec, workers=8,
-            bounds={"leaves": "every leaf symbolic: durations [1 s, 100 julian years] in µs, instants 2000..2100 in µs, counters any int >= 0, flags; every optional field present or absent"},
+            bounds={"leaves": "every leaf symbolic: durations [0, 100 julian years] in µs, instants 2000..2100 in µs, counters any int >= 0, flags; every optional field present or absent"},
             functions=["data/_parameters.py:Parameters.encode", "data/_parameters.py:Parameters.decode", "data/_buckets.py:ResultBucket.decode",
                        "_utils/json_encoder.py:_RepidJSONEncoder.default"],
             covers=["round-trip-Parameters", "round-trip-ArgsBucket", "round-trip-ResultBucket", "round-trip-DelayProperties"],
